@@ -107,6 +107,16 @@ def one(t):
         tree.cleanup()
 
 
+def many_links(files, k):
+    """Every fifth tree: one file gets 20 more hard links - more paths of one identity than a small pool has throttle permits."""
+    if k % 5 == 0:
+        base = next(f for f in files if f["hardlink_of"] is None and f["symlink_to"] is None)
+        fid = max(f["id"] for f in files) + 1
+        for i in range(20):
+            files.append(dict(base, id=fid + i, name="hl%d" % (fid + i), sub=["", "s", "s/t"][i % 3], root=gg.ROOTS[i % 3], hardlink_of=base["id"], symlink_to=None))
+    return files
+
+
 def diff(a, b):
     la, lb = a.split(b"\n"), b.split(b"\n")
     for i, (x, y) in enumerate(zip(la, lb)):
@@ -132,7 +142,7 @@ def main(tier):
     lib.build_all()
     rng = random.Random(chk.seed + 13)
     n = 150 if thorough else 36
-    cases = [(k, gg.gen_tree(rng, nclasses=rng.randint(3, 6)), rng.randint(0, 1 << 30), thorough) for k in range(1, n + 1)]
+    cases = [(k, many_links(gg.gen_tree(rng, nclasses=rng.randint(3, 6)), k), rng.randint(0, 1 << 30), thorough) for k in range(1, n + 1)]
     results = lib.pmap(one, cases, workers=8)
     total_runs = sum(r["runs"] for r in results)
     # hook traces of real rehash invocations
